@@ -103,7 +103,7 @@ def _linktest_placements(received):
                 yield cand
 
 
-def run_one(devs, budgets, sizes=None, mode="server", via="conn", fin=False, reconnect=False, late_read=False, linktest=False, twin=False, menu="full"):
+def run_one(devs, budgets, sizes=None, mode="server", via="conn", fin=False, reconnect=False, late_read=False, linktest=False, twin=False, menu="full", packet=None):
     if twin:
         return run_twin(devs, budgets, sizes=sizes, via=via, menu=menu)
     box = {}
@@ -116,6 +116,8 @@ def run_one(devs, budgets, sizes=None, mode="server", via="conn", fin=False, rec
             address="10.0.0.1", port=5000)
         if via == "proto":
             proto = secsgem.hsms.HsmsProtocol(settings)
+            if packet:
+                proto.send_packet_size = packet  # the documented knob for the size of the pieces a block is handed to the connection in
             conn = proto._connection
             enable, disable = proto.enable, proto.disable
         else:
@@ -212,7 +214,7 @@ def run_one(devs, budgets, sizes=None, mode="server", via="conn", fin=False, rec
 
     sched = vrt.run(driver, devs, budgets, max_steps=300000, max_time=600.0, line_points=False)
     res = {"trace": sched.trace, "v": []}
-    case = {"sizes": sizes, "mode": mode, "via": via, "fin": fin, "reconnect": reconnect, "late_read": late_read, "linktest": linktest}
+    case = {"sizes": sizes, "mode": mode, "via": via, "fin": fin, "reconnect": reconnect, "late_read": late_read, "linktest": linktest, "packet": packet}
     if sched.harness_failure or sched.driver_exception or box.get("harness"):
         res["harness"] = (sched.harness_failure or sched.driver_exception or box.get("harness"))[-1000:]
         res["obs"] = None
@@ -353,6 +355,10 @@ def configs(thorough):
     out.append({"sizes": [3], "mode": "server", "via": "proto"})
     out.append({"sizes": [MIB - 14], "mode": "server", "via": "proto"})  # frame exactly 1 MiB
     out.append({"sizes": [MIB - 13], "mode": "server", "via": "proto"})  # 1 MiB + 1
+    out.append({"sizes": [2 * MIB - 14], "mode": "server", "via": "proto"})  # frame exactly 2 packets
+    # the same split with 8-byte packets: frames of exactly 2, 3 and 4 packets, one byte less, one byte more, and two messages in a row
+    for sizes in ([2], [10], [18], [1], [3], [11], [2, 10]):
+        out.append({"sizes": sizes, "mode": "server", "via": "proto", "packet": 8})
     if thorough:
         out.append({"sizes": [2 * MIB + 5], "mode": "server", "via": "proto"})
         out.append({"sizes": [MIB, 7], "mode": "client", "via": "proto"})
@@ -435,7 +441,7 @@ def replay(ctx, detail):
     case = detail["case"]
     devs = {int(k): v for k, v in case.get("devs", {}).items()}
     r = run_one(devs, case.get("budgets", {}), sizes=case["sizes"], mode=case["mode"], via=case["via"], fin=case.get("fin", False),
-                reconnect=case.get("reconnect", False), late_read=case.get("late_read", False), linktest=case.get("linktest", False), twin=case.get("twin", False), menu=case.get("menu", "full"))
+                reconnect=case.get("reconnect", False), late_read=case.get("late_read", False), linktest=case.get("linktest", False), twin=case.get("twin", False), menu=case.get("menu", "full"), packet=case.get("packet"))
     print("replayed:", r.get("obs"))
     ctx.evaluations += 1
     for sig, d in r["v"]:
